@@ -817,3 +817,194 @@ Proof.
   intros t ok ds cur. rewrite (submitted_independent_of_past t ok (filter _ ds)), filter_idem.
   apply submitted_independent_of_past.
 Qed.
+
+(* =========================================================================================== *)
+(* Part 6.  AttestAndScheduleAggregate.                                                        *)
+
+(* the entry that makes an attestation's committee eligible for an aggregation job *)
+Definition elig (info : list sub) (cur : N) (acct_ok : N -> bool) (a : att) : option sub :=
+  match find_sub (a_slot a) (a_comm a) info with
+  | None => None
+  | Some e => if a_slot a <? cur then None
+              else if negb (s_agg e) then None
+              else if negb (acct_ok (s_val e)) then None else Some e
+  end.
+
+Lemma elig_some_iff : forall info cur acct_ok a e,
+  elig info cur acct_ok a = Some e <->
+  find_sub (a_slot a) (a_comm a) info = Some e /\ cur <= a_slot a /\ s_agg e = true /\ acct_ok (s_val e) = true.
+Proof.
+  intros info cur acct_ok a e. unfold elig.
+  destruct (find_sub (a_slot a) (a_comm a) info) as [e'|].
+  - destruct (N.ltb_spec (a_slot a) cur).
+    + split; [discriminate|]. intros (_ & H1 & _). lia.
+    + destruct (s_agg e') eqn:A; cbn [negb].
+      * destruct (acct_ok (s_val e')) eqn:B; cbn [negb].
+        -- split; [intro E; injection E as <-; auto|]. intros (E & _). exact E.
+        -- split; [discriminate|]. intros (E & _ & _ & B'). injection E as <-. congruence.
+      * split; [discriminate|]. intros (E & _ & A' & _). injection E as <-. congruence.
+  - split; [discriminate|]. intros (E & _). discriminate.
+Qed.
+
+Lemma attest_step_elig : forall pr info cur acct_ok jobs a,
+  attest_step pr info cur acct_ok jobs a =
+  match elig info cur acct_ok a with
+  | Some e => if has_job (a_slot a) (a_comm a) jobs then jobs else jobs ++ [mk_job pr a e]
+  | None => jobs
+  end.
+Proof.
+  intros. unfold attest_step, elig.
+  destruct (find_sub (a_slot a) (a_comm a) info) as [e|]; [|reflexivity].
+  destruct (a_slot a <? cur); [reflexivity|].
+  destruct (negb (s_agg e)); [reflexivity|].
+  destruct (negb (acct_ok (s_val e))); reflexivity.
+Qed.
+
+Lemma job_key_eqb_iff : forall s c j, job_key_eqb s c j = true <-> jkey j = (s, c).
+Proof.
+  intros s c j. unfold job_key_eqb, jkey. rewrite andb_true_iff, !N.eqb_eq. split.
+  - intros [-> ->]. reflexivity.
+  - intro H. injection H as -> ->. split; reflexivity.
+Qed.
+
+Lemma has_job_iff : forall s c jobs, has_job s c jobs = true <-> In (s, c) (map jkey jobs).
+Proof.
+  intros s c jobs. unfold has_job. rewrite existsb_exists, in_map_iff. split.
+  - intros (j & Hj & K). apply job_key_eqb_iff in K. exists j. auto.
+  - intros (j & K & Hj). exists j. split; [exact Hj|]. apply job_key_eqb_iff. exact K.
+Qed.
+
+Lemma has_job_false_iff : forall s c jobs, has_job s c jobs = false <-> ~ In (s, c) (map jkey jobs).
+Proof.
+  intros s c jobs. rewrite <- has_job_iff. destruct (has_job s c jobs); split; congruence.
+Qed.
+
+Lemma jkey_mk_job : forall pr a e, jkey (mk_job pr a e) = akey a.
+Proof. reflexivity. Qed.
+
+(* one attestation: nothing is lost, keys stay distinct, the committee is served if eligible *)
+Lemma attest_step_prefix : forall pr info cur acct_ok jobs a,
+  exists new, attest_step pr info cur acct_ok jobs a = jobs ++ new.
+Proof.
+  intros. rewrite attest_step_elig. destruct (elig info cur acct_ok a) as [e|].
+  - destruct (has_job _ _ jobs); [exists []; rewrite app_nil_r; reflexivity|eexists; reflexivity].
+  - exists []. rewrite app_nil_r. reflexivity.
+Qed.
+
+Lemma nodup_app_one : forall {A} (l : list A) x, NoDup l -> ~ In x l -> NoDup (l ++ [x]).
+Proof.
+  intros A l x ND Hn. apply NoDup_rev in ND. rewrite <- (rev_involutive (_ ++ _)). apply NoDup_rev.
+  rewrite rev_app_distr. cbn. constructor; [|exact ND]. rewrite <- in_rev. exact Hn.
+Qed.
+
+Lemma attest_step_nodup : forall pr info cur acct_ok jobs a,
+  NoDup (map jkey jobs) -> NoDup (map jkey (attest_step pr info cur acct_ok jobs a)).
+Proof.
+  intros pr info cur acct_ok jobs a ND. rewrite attest_step_elig.
+  destruct (elig info cur acct_ok a) as [e|]; [|exact ND].
+  destruct (has_job (a_slot a) (a_comm a) jobs) eqn:H; [exact ND|].
+  rewrite map_app. cbn [map]. apply nodup_app_one; [exact ND|].
+  apply has_job_false_iff in H. exact H.
+Qed.
+
+Lemma attest_run_prefix : forall pr info cur acct_ok atts jobs,
+  exists new, attest_run pr info cur acct_ok jobs atts = jobs ++ new.
+Proof.
+  intros pr info cur acct_ok atts. unfold attest_run.
+  induction atts as [|a atts IH]; intro jobs; cbn [fold_left].
+  - exists []. rewrite app_nil_r. reflexivity.
+  - destruct (attest_step_prefix pr info cur acct_ok jobs a) as [n1 E1]. rewrite E1.
+    destruct (IH (jobs ++ n1)) as [n2 E2]. rewrite E2. exists (n1 ++ n2). rewrite app_assoc. reflexivity.
+Qed.
+
+Lemma attest_run_nodup : forall pr info cur acct_ok atts jobs,
+  NoDup (map jkey jobs) -> NoDup (map jkey (attest_run pr info cur acct_ok jobs atts)).
+Proof.
+  intros pr info cur acct_ok atts. unfold attest_run.
+  induction atts as [|a atts IH]; intros jobs ND; cbn [fold_left]; [exact ND|].
+  apply IH. apply attest_step_nodup. exact ND.
+Qed.
+
+(* every job of the result was there before or was made from an eligible attestation of this call *)
+Lemma attest_run_sound : forall pr info cur acct_ok atts jobs j,
+  In j (attest_run pr info cur acct_ok jobs atts) ->
+  In j jobs \/ exists a e, In a atts /\ elig info cur acct_ok a = Some e /\ j = mk_job pr a e /\
+                           ~ In (akey a) (map jkey jobs).
+Proof.
+  intros pr info cur acct_ok atts. unfold attest_run.
+  induction atts as [|a atts IH]; intros jobs j Hj; cbn [fold_left] in Hj; [left; exact Hj|].
+  apply IH in Hj as [Hj|(a' & e & Ha & He & -> & Hn)].
+  - rewrite attest_step_elig in Hj. destruct (elig info cur acct_ok a) as [e|] eqn:E; [|left; exact Hj].
+    destruct (has_job (a_slot a) (a_comm a) jobs) eqn:H; [left; exact Hj|].
+    apply in_app_or in Hj as [Hj|[<-|[]]]; [left; exact Hj|].
+    right. exists a, e. split; [left; reflexivity|]. split; [exact E|]. split; [reflexivity|].
+    apply has_job_false_iff in H. exact H.
+  - right. exists a', e. split; [right; exact Ha|]. split; [exact He|]. split; [reflexivity|].
+    intro Hi. apply Hn. destruct (attest_step_prefix pr info cur acct_ok jobs a) as [n E]. rewrite E.
+    rewrite map_app. apply in_or_app. left. exact Hi.
+Qed.
+
+(* every eligible attested committee has a job afterwards *)
+Lemma attest_run_complete : forall pr info cur acct_ok atts jobs a e,
+  In a atts -> elig info cur acct_ok a = Some e ->
+  In (akey a) (map jkey (attest_run pr info cur acct_ok jobs atts)).
+Proof.
+  intros pr info cur acct_ok atts. unfold attest_run.
+  induction atts as [|x atts IH]; intros jobs a e Ha He; [destruct Ha|]. cbn [fold_left].
+  destruct Ha as [->|Ha]; [|eapply IH; eassumption].
+  destruct (attest_run_prefix pr info cur acct_ok atts (attest_step pr info cur acct_ok jobs a)) as [n E].
+  unfold attest_run in E. rewrite E, map_app. apply in_or_app. left.
+  rewrite attest_step_elig, He.
+  destruct (has_job (a_slot a) (a_comm a) jobs) eqn:H; [apply has_job_iff; exact H|].
+  rewrite map_app. apply in_or_app. right. left. reflexivity.
+Qed.
+
+Lemma nodup_key_unique : forall {A K} (f : A -> K) l x y,
+  NoDup (map f l) -> In x l -> In y l -> f x = f y -> x = y.
+Proof.
+  intros A K f l. induction l as [|z l IH]; intros x y ND Hx Hy E; [destruct Hx|].
+  cbn [map] in ND. inversion ND as [|? ? Hn ND']; subst.
+  destruct Hx as [->|Hx], Hy as [->|Hy].
+  - reflexivity.
+  - exfalso. apply Hn. rewrite E. apply in_map. exact Hy.
+  - exfalso. apply Hn. rewrite <- E. apply in_map. exact Hx.
+  - apply IH; assumption.
+Qed.
+
+(* The statement in one piece, at the level of the stored information. *)
+Lemma attest_run_main : forall pr info cur acct_ok jobs atts,
+  NoDup (map jkey jobs) ->
+  let jobs' := attest_run pr info cur acct_ok jobs atts in
+  (exists new, jobs' = jobs ++ new) /\
+  NoDup (map jkey jobs') /\
+  (forall a e, In a atts -> find_sub (a_slot a) (a_comm a) info = Some e -> s_agg e = true ->
+     cur <= a_slot a -> acct_ok (s_val e) = true ->
+     exists j, In j jobs' /\ jkey j = akey a /\
+       (forall j', In j' jobs' -> jkey j' = akey a -> j' = j) /\
+       (~ In (akey a) (map jkey jobs) ->
+          j_time j = a_slot a * slot_ms pr + delay_ms pr /\ j_dslot j = a_slot a /\
+          j_val j = s_val e /\ j_sig j = s_sig e /\
+          exists a', In a' atts /\ akey a' = akey a /\ j_root j = a_root a')) /\
+  (forall j, In j jobs' -> ~ In j jobs ->
+     exists a e, In a atts /\ find_sub (a_slot a) (a_comm a) info = Some e /\ s_agg e = true /\
+       cur <= a_slot a /\ acct_ok (s_val e) = true /\ j = mk_job pr a e).
+Proof.
+  intros pr info cur acct_ok jobs atts ND jobs'.
+  pose proof (attest_run_nodup pr info cur acct_ok atts jobs ND) as ND'. fold jobs' in ND'.
+  split; [apply attest_run_prefix|]. split; [exact ND'|]. split.
+  - intros a e Ha F A C B.
+    assert (He : elig info cur acct_ok a = Some e) by (apply elig_some_iff; auto).
+    pose proof (attest_run_complete pr info cur acct_ok atts jobs a e Ha He) as Hk. fold jobs' in Hk.
+    apply in_map_iff in Hk as (j & Kj & Hj). exists j. split; [exact Hj|]. split; [exact Kj|]. split.
+    + intros j' Hj' Kj'. apply (nodup_key_unique jkey jobs'); try assumption. congruence.
+    + intro Hn. apply attest_run_sound in Hj as [Hj|(a' & e' & Ha' & He' & -> & _)].
+      * exfalso. apply Hn. rewrite <- Kj. apply in_map. exact Hj.
+      * rewrite jkey_mk_job in Kj. apply elig_some_iff in He' as (F' & _).
+        unfold akey in Kj. injection Kj as K1 K2. rewrite K1, K2, F in F'. injection F' as <-.
+        cbn [mk_job j_time j_dslot j_val j_sig j_root]. rewrite K1.
+        apply find_sub_some in F as (_ & Hs & _).
+        repeat split; try reflexivity; try assumption.
+        exists a'. unfold akey. rewrite K1, K2. auto.
+  - intros j Hj Hn. apply attest_run_sound in Hj as [Hj|(a & e & Ha & He & -> & _)]; [contradiction|].
+    apply elig_some_iff in He as (F & C & A & B). exists a, e. auto 10.
+Qed.
